@@ -205,6 +205,10 @@ enum Cb {
 enum Hdr {
     Any,
     Bytes(Vec<u8>),
+    /// `hdr=any>HEX`: `with_any_header()` and then `with_header(HEX)` on the same builder (the last call decides: HEX is demanded)
+    AnyThen(Vec<u8>),
+    /// `hdr=HEX>any`: `with_header(HEX)` and then `with_any_header()` (any header is accepted)
+    ThenAny(Vec<u8>),
 }
 
 #[derive(Debug, Clone)]
@@ -244,6 +248,9 @@ enum Op {
     Open {
         name: String,
         p: Option<usize>,
+        /// `p=any!`: the builder was first told to create (`create_new(true)`, `payload_size(4)`) and then to take the payload
+        /// size from the file (`retrieve_payload_size()`): a builder that can only open, like `p=any`
+        chain: bool,
         hdr: Hdr,
         caches: Vec<usize>,
         cb: Cb,
@@ -401,11 +408,14 @@ fn parse_op_line(line: &str) -> Option<Line> {
         ["open", name, p, hdr, caches, cb, ext] => Op::Open {
             name: parse_name(name)?,
             p: match p.strip_prefix("p=")? {
-                "any" => None,
+                "any" | "any!" => None,
                 n => Some(parse_num(n)?),
             },
+            chain: p == &"p=any!",
             hdr: match hdr.strip_prefix("hdr=")? {
                 "any" => Hdr::Any,
+                h if h.starts_with("any>") => Hdr::AnyThen(parse_hex(&h[4..])?),
+                h if h.ends_with(">any") => Hdr::ThenAny(parse_hex(&h[..h.len() - 4])?),
                 h => Hdr::Bytes(parse_hex(h)?),
             },
             caches: parse_caches(caches.strip_prefix("caches=")?)?,
@@ -785,6 +795,7 @@ impl State {
         &mut self,
         name: &str,
         p: Option<usize>,
+        chain: bool,
         hdr: &Hdr,
         caches: &[usize],
         cb: Cb,
@@ -804,6 +815,8 @@ impl State {
                 let b = match hdr {
                     Hdr::Any => b.with_any_header(),
                     Hdr::Bytes(bytes) => b.with_header(bytes),
+                    Hdr::AnyThen(bytes) => b.with_any_header().with_header(bytes),
+                    Hdr::ThenAny(bytes) => b.with_header(bytes).with_any_header(),
                 };
                 finish_builder!(b, caches, cb, p, &path)
             }),
@@ -814,10 +827,19 @@ impl State {
                     peek_payload_size(&data_file).unwrap_or(0)
                 };
                 watched(PLAIN, || {
-                    let b = ByteSeries::builder().retrieve_payload_size();
+                    let b = if chain {
+                        ByteSeries::builder()
+                            .create_new(true)
+                            .payload_size(4)
+                            .retrieve_payload_size()
+                    } else {
+                        ByteSeries::builder().retrieve_payload_size()
+                    };
                     let b = match hdr {
                         Hdr::Any => b.with_any_header(),
                         Hdr::Bytes(bytes) => b.with_header(bytes),
+                        Hdr::AnyThen(bytes) => b.with_any_header().with_header(bytes),
+                        Hdr::ThenAny(bytes) => b.with_header(bytes).with_any_header(),
                     };
                     finish_builder!(b, caches, cb, resampler_p, &path)
                 })
@@ -885,12 +907,25 @@ impl State {
         s
     }
 
+    /// The read calls append to vectors the caller owns. Every read of the harness hands in vectors that already hold
+    /// `pre` foreign entries (as an application that collects several reads into one pair of vectors does); what the call
+    /// appended is what lies behind them. An entry of the caller that was changed or removed is reported as `clobbered`.
+    const SENTINEL_TS: u64 = 0x5E5E_5E5E_5E5E_5E5E;
+
     fn op_read_all(&mut self, lo: TsBound, hi: TsBound) -> String {
-        let mut ts = Vec::new();
-        let mut items: Vec<Vec<u8>> = Vec::new();
+        let pre = 3;
+        let mut ts = vec![Self::SENTINEL_TS; pre];
+        let mut items: Vec<Vec<u8>> = vec![vec![0xA5]; pre];
         let res = self.with_handle(PLAIN, |bs| {
             bs.read_all((lo, hi), &mut RawDecoder, &mut ts, &mut items)
         });
+        if matches!(res, Ok(Ok(()))) {
+            if ts.len() < pre || items.len() < pre || ts[..pre].iter().any(|t| *t != Self::SENTINEL_TS) || items[..pre].iter().any(|i| i != &vec![0xA5]) {
+                return "clobbered".to_string();
+            }
+            ts.drain(..pre);
+            items.drain(..pre);
+        }
         match res {
             Ok(Ok(())) => Self::format_items(&ts, &items),
             Ok(Err(e)) => classify_read(&e).to_string(),
@@ -899,11 +934,19 @@ impl State {
     }
 
     fn op_read_first_n(&mut self, n: usize, lo: TsBound, hi: TsBound) -> String {
-        let mut ts = Vec::new();
-        let mut items: Vec<Vec<u8>> = Vec::new();
+        let pre = if n < 50_000 { n + 1 } else { 2 };
+        let mut ts = vec![Self::SENTINEL_TS; pre];
+        let mut items: Vec<Vec<u8>> = vec![vec![0xA5]; pre];
         let res = self.with_handle(PLAIN, |bs| {
             bs.read_first_n(n, &mut RawDecoder, (lo, hi), &mut ts, &mut items)
         });
+        if matches!(res, Ok(Ok(()))) {
+            if ts.len() < pre || items.len() < pre || ts[..pre].iter().any(|t| *t != Self::SENTINEL_TS) || items[..pre].iter().any(|i| i != &vec![0xA5]) {
+                return "clobbered".to_string();
+            }
+            ts.drain(..pre);
+            items.drain(..pre);
+        }
         match res {
             Ok(Ok(())) => Self::format_items(&ts, &items),
             Ok(Err(e)) => classify_read(&e).to_string(),
@@ -917,12 +960,21 @@ impl State {
             Err(result) => return result,
         };
         let mut resampler = BytesResampler { p };
-        let mut ts = Vec::new();
-        let mut items: Vec<Vec<u64>> = Vec::new();
+        // more foreign entries than the 2n samples one call may add
+        let pre = if n < 50_000 { 2 * n + 1 } else { 2 };
+        let mut ts = vec![Self::SENTINEL_TS; pre];
+        let mut items: Vec<Vec<u64>> = vec![vec![0xA5A5]; pre];
         // the last argument (`skip_corrupt_meta`) is not used by the library
         let res = self.with_handle(PLAIN, |bs| {
             bs.read_n(n, (lo, hi), &mut resampler, &mut ts, &mut items, false)
         });
+        if matches!(res, Ok(Ok(()))) {
+            if ts.len() < pre || items.len() < pre || ts[..pre].iter().any(|t| *t != Self::SENTINEL_TS) || items[..pre].iter().any(|i| i != &vec![0xA5A5]) {
+                return "clobbered".to_string();
+            }
+            ts.drain(..pre);
+            items.drain(..pre);
+        }
         match res {
             Ok(Ok(())) => {
                 use byteseries::Encoder;
@@ -1020,11 +1072,12 @@ impl State {
             Op::Open {
                 name,
                 p,
+                chain,
                 hdr,
                 caches,
                 cb,
                 ext,
-            } => self.op_open(name, *p, hdr, caches, *cb, *ext),
+            } => self.op_open(name, *p, *chain, hdr, caches, *cb, *ext),
             Op::Close => self.op_close(),
             Op::Push { ts, payload } => self.push(PLAIN, *ts, payload),
             Op::PushSeq {
